@@ -1374,7 +1374,7 @@ class RealAoPubsub:
     obj.fabric = fab
     self.news = ev.Event(signal="NEWS")
     self.sub_ev = ev.Event(signal="NEWS")
-    self.pend = [ev.Event(signal="P%d" % i) for i in range(info["pending"])]
+    self.pend = [ev.Event(signal="P%d" % i) for i in range(info["pending"] + info.get("post_after", 0))]
     self.errors = {}
     self.bodies = {0: self.caller_body(), 1: self.guard(1, lambda: obj.run_event(self.task, self.run, obj.queue)),
                    2: self.guard(2, self.delivery)}
@@ -1402,11 +1402,13 @@ class RealAoPubsub:
       try:
         if info["subscribe_first"]:
           self.obj.subscribe(self.sub_ev, queue_type=info["kind"])
-        for p in self.pend:
+        for p in self.pend[:info["pending"]]:
           self.obj.post_fifo(p)
         if not info["subscribe_first"]:
           self.obj.subscribe(self.sub_ev, queue_type=info["kind"])
         self.obj.publish(self.news, priority=5)
+        for p in self.pend[info["pending"]:]:
+          self.obj.post_fifo(p)
       except BaseException as ex:     # noqa
         self.errors[0] = "%s: %s" % (type(ex).__name__, ex)
     return body
@@ -1505,7 +1507,7 @@ class RealPublishers:
         self.undo.append(lambda _k=k, _o=old: setattr(FE, _k, _o))
     cells = {k: "FabricEvent.%s" % k for k, kind in info["class_state"].items() if kind == "attr"}
     if cells:
-      self.undo.append(R.shared_class_attrs(d, ao, "FabricEvent", cells))
+      self.undo.append(R.shared_class_attrs(d, ao, "FabricEvent", cells, info.get("class_state_initial")))
     self.fabric = fabric = ao.ActiveFabricSource()
     n = 2 * len(info["calls"])
     fabric.fifo_fabric_queue = R.make_queue(d, "fifo_queue", n)
